@@ -372,6 +372,30 @@ func (ts *TermStore) Cmp(op Op, a, b *Term) *Term {
 		if a.op == OZExt && b.op == OZExt && a.a.w == b.a.w {
 			return ts.Cmp(OEq, a.a, b.a)
 		}
+		if a.op == OConst {
+			a, b = b, a
+		}
+		if b.op == OConst {
+			// (x >> k) == c  ->  x[w-1:k] == c
+			if a.op == OLShr && a.b.op == OConst && a.b.val > 0 && a.b.val < uint64(a.w) {
+				k := uint8(a.b.val)
+				if b.val > mask(a.w-k) {
+					return ts.tFalse
+				}
+				return ts.Cmp(OEq, ts.Extract(a.a, a.w-1, k), ts.Const(a.w-k, b.val))
+			}
+			// (y & lowmask) == c  ->  y[k-1:0] == c
+			if a.op == OAnd && a.b.op == OConst {
+				mk := a.b.val
+				if mk != 0 && mk&(mk+1) == 0 && mk != mask(a.w) {
+					k := uint8(bits.Len64(mk))
+					if b.val > mk {
+						return ts.tFalse
+					}
+					return ts.Cmp(OEq, ts.Extract(a.a, k-1, 0), ts.Const(k, b.val))
+				}
+			}
+		}
 		if a.id > b.id {
 			a, b = b, a
 		}
@@ -524,6 +548,15 @@ func (ts *TermStore) Ite(c, a, b *Term) *Term {
 	if c.op == OBNot {
 		return ts.Ite(c.a, b, a)
 	}
+	// ite(c, x|y, x) = x | ite(c, y, 0)   (read-modify-write through a symbolic index)
+	if a.op == OOr && a.w != 0 {
+		if a.a == b {
+			return ts.Bin(OOr, b, ts.Ite(c, a.b, ts.Const(a.w, 0)))
+		}
+		if a.b == b {
+			return ts.Bin(OOr, b, ts.Ite(c, a.a, ts.Const(a.w, 0)))
+		}
+	}
 	return ts.mk(OIte, a.w, c, a, b, 0)
 }
 
@@ -640,6 +673,106 @@ func (ts *TermStore) Concat(hi, lo *Term) *Term {
 		return ts.Const(hi.w+lo.w, hi.val<<lo.w|lo.val)
 	}
 	return ts.mk(OConcat, hi.w+lo.w, hi, lo, nil, 0)
+}
+
+// MaxU returns an upper bound (unsigned) of t by a cheap structural
+// interval analysis; bounds maps variables to assumed upper bounds.
+func (ts *TermStore) MaxU(t *Term, bounds map[int32]uint64, depth int) uint64 {
+	m := maskB(t.w)
+	if depth > 12 {
+		return m
+	}
+	switch t.op {
+	case OConst:
+		return t.val
+	case OVar:
+		if b, ok := bounds[t.id]; ok && b < m {
+			return b
+		}
+		return m
+	case OZExt:
+		return ts.MaxU(t.a, bounds, depth+1)
+	case OAnd:
+		a, b := ts.MaxU(t.a, bounds, depth+1), ts.MaxU(t.b, bounds, depth+1)
+		if a < b {
+			return a
+		}
+		return b
+	case OLShr:
+		if t.b.op == OConst {
+			if t.b.val >= uint64(t.w) {
+				return 0
+			}
+			return ts.MaxU(t.a, bounds, depth+1) >> t.b.val
+		}
+		return ts.MaxU(t.a, bounds, depth+1)
+	case OUDiv:
+		if t.b.op == OConst && t.b.val != 0 {
+			return ts.MaxU(t.a, bounds, depth+1) / t.b.val
+		}
+	case OURem:
+		if t.b.op == OConst && t.b.val != 0 {
+			a := ts.MaxU(t.a, bounds, depth+1)
+			if a < t.b.val-1 {
+				return a
+			}
+			return t.b.val - 1
+		}
+	case OIte:
+		a, b := ts.MaxU(t.b, bounds, depth+1), ts.MaxU(t.c, bounds, depth+1)
+		if a > b {
+			return a
+		}
+		return b
+	case OExtract:
+		if uint8(t.val) == 0 {
+			a := ts.MaxU(t.a, bounds, depth+1)
+			if a < m {
+				return a
+			}
+		}
+	case OAdd:
+		a, b := ts.MaxU(t.a, bounds, depth+1), ts.MaxU(t.b, bounds, depth+1)
+		if a <= m && b <= m-a {
+			return a + b
+		}
+	}
+	return m
+}
+
+// UnderEq rebuilds t under the assumption idx == c, where conds maps the
+// hash-consed terms (idx == k) to k: ite nodes on such a condition are
+// resolved. Used when a value loaded through a symbolic index is stored back
+// through the same index (read-modify-write).
+func (ts *TermStore) UnderEq(t *Term, conds map[*Term]uint64, c uint64, depth int) *Term {
+	if depth > 40 || t.op == OConst || t.op == OVar {
+		return t
+	}
+	switch t.op {
+	case OIte:
+		if k, ok := conds[t.a]; ok {
+			if k == c {
+				return ts.UnderEq(t.b, conds, c, depth+1)
+			}
+			return ts.UnderEq(t.c, conds, c, depth+1)
+		}
+		if depth > 6 {
+			return t
+		}
+		return ts.Ite(t.a, ts.UnderEq(t.b, conds, c, depth+1), ts.UnderEq(t.c, conds, c, depth+1))
+	case OAnd, OOr, OXor, OAdd, OSub:
+		if depth > 6 {
+			return t
+		}
+		return ts.Bin(t.op, ts.UnderEq(t.a, conds, c, depth+1), ts.UnderEq(t.b, conds, c, depth+1))
+	case OZExt:
+		return ts.ZExt(ts.UnderEq(t.a, conds, c, depth+1), t.w)
+	case OSExt:
+		return ts.SExt(ts.UnderEq(t.a, conds, c, depth+1), t.w)
+	case OExtract:
+		return ts.Extract(ts.UnderEq(t.a, conds, c, depth+1), uint8(t.val>>8), uint8(t.val))
+	}
+	return t
 }
 
 // ---- evaluation under a model ----
